@@ -266,6 +266,9 @@ def rule_f(ctx):
 def rule_g(ctx):
     from . import c09
     c09.rule_a(ctx)
+    # "until it is cancelled": the key the occurrence checks is the action's own key, on both execution paths (spawn / chained)
+    c09.rule_b(ctx)
+    c09.rule_d(ctx)
 
 RULES = [
     ("C10.g", "a cancelled periodic action stops firing: the stepping loop only sees keys through the cancelled-skipping peek helper", rule_g),
